@@ -17,11 +17,34 @@ Rec == ndJsonDeserialize(IOEnv.TRACE)
 VARIABLES l, bad
 tvars == <<vars, l, bad>>
 
-RECURSIVE SlotsMatch(_, _)
-SlotsMatch(exp, obs) ==
-  IF Len(exp) # Len(obs) THEN FALSE
-  ELSE IF exp = <<>> THEN TRUE
-  ELSE Matches(Head(exp), Head(obs)) /\ SlotsMatch(Tail(exp), Tail(obs))
+(***************************************************************************)
+(* Observation-aware evaluation of the lines of one call: like RunLines,    *)
+(* but after each line the bindings follow what was observed where the      *)
+(* specification leaves a choice or where the code disagreed:               *)
+(*  - a line expected to fail: an observed error keeps the bindings (C03);  *)
+(*    if it did not fail, the name it may have bound becomes unspecified;   *)
+(*  - an assignment whose observed value disagrees is reported and the      *)
+(*    name is re-synchronised on the observed value, so that one wrong      *)
+(*    line is reported once and not again at every later use.               *)
+(***************************************************************************)
+NameOf(line) == IF line.form = "assign" THEN line.name ELSE IF "name" \in DOMAIN line THEN line.name ELSE <<>>
+ExpectedToFail(line) == line.form = "fail" \/ (line.form = "assign" /\ line.rhs.form = "fail")
+
+EnvAfter(ctx, line, m, o) ==
+  LET n == NameOf(line) IN
+  IF ExpectedToFail(line)
+  THEN IF o.k = "err" \/ n = <<>> THEN ctx.env ELSE Bind(ctx.env, n, Unspec)
+  ELSE IF line.form = "assign" /\ ~SlotMatches(m.slot, o)
+  THEN Bind(ctx.env, n, OfObs(o))
+  ELSE m.env
+
+RECURSIVE RunObs(_, _, _, _, _)
+RunObs(ctx, lines, obs, ok, exp) ==
+  IF lines = <<>> \/ obs = <<>> THEN [ok |-> ok /\ lines = <<>> /\ obs = <<>>, env |-> ctx.env, exp |-> exp]
+  ELSE LET m == LineMeaning(ctx, Head(lines))
+           o == Head(obs)
+       IN  RunObs([ctx EXCEPT !.env = EnvAfter(ctx, Head(lines), m, o)], Tail(lines), Tail(obs),
+                  ok /\ SlotMatches(m.slot, o), Append(exp, m.slot))
 
 Report(i, exp) == PrintT(<<"BAD", ToJson([l |-> i, expected |-> exp])>>)
 
@@ -34,7 +57,7 @@ CalcOf(c) ==
 
 Judge(ok, exp) == bad' = IF ok THEN bad ELSE IF Report(l, exp) THEN bad \cup {l} ELSE bad
 
-TInit == /\ calc = DefaultCalc /\ sess = <<>> /\ today = 0 /\ last = [call |-> "none"]
+TInit == /\ calc = DefaultCalc /\ sess = <<>> /\ run = NoRun /\ today = 0 /\ last = [call |-> "none"]
          /\ l = 1 /\ bad = {}
 
 TNext ==
@@ -43,17 +66,24 @@ TNext ==
   /\ LET e == Rec[l] IN
        CASE e.ev = "reset" ->
               \* a fresh calculator configured through the setters; the driver's day
-              /\ calc' = CalcOf(e.cfg) /\ sess' = <<>> /\ today' = e.today
+              /\ calc' = CalcOf(e.cfg) /\ sess' = <<>> /\ today' = e.today /\ run' = NoRun
               /\ last' = [call |-> "reset"] /\ bad' = bad
          [] e.ev = "execute" ->
-              /\ Execute(e.lang, e.lines)
-              /\ Judge(e.status = TRUE /\ SlotsMatch(last'.slots, e.obs), last'.slots)
+              \* a behaviour of Execute: calc and sess unchanged; the slots are judged line by line
+              /\ LET r == RunObs(Ctx(e.lang, EmptyEnv), e.lines, e.obs, TRUE, <<>>)
+                 IN  /\ Judge(e.status = TRUE /\ r.ok, r.exp)
+                     /\ last' = [call |-> "execute", status |-> e.status, slots |-> r.exp]
+              /\ UNCHANGED <<calc, sess, run, today>>
          [] e.ev = "session_new" -> NewSession(e.s) /\ bad' = bad
          [] e.ev = "set_language" -> SetLanguage(e.s, e.lang) /\ bad' = bad
          [] e.ev = "set_text" -> SetText(e.s, e.lines) /\ bad' = bad
          [] e.ev = "execute_session" ->
-              /\ ExecSession(e.s)
-              /\ Judge(e.status = TRUE /\ SlotsMatch(last'.slots, e.obs), last'.slots)
+              /\ e.s \in DOMAIN sess /\ sess[e.s].fresh
+              /\ LET r == RunObs(Ctx(sess[e.s].lang, sess[e.s].env), sess[e.s].lines, e.obs, TRUE, <<>>)
+                 IN  /\ Judge(e.status = TRUE /\ r.ok, r.exp)
+                     /\ last' = [call |-> "execute_session", status |-> e.status, slots |-> r.exp]
+                     /\ sess' = [sess EXCEPT ![e.s].env = r.env, ![e.s].fresh = FALSE]
+              /\ UNCHANGED <<calc, run, today>>
 
 TSpec == TInit /\ [][TNext]_tvars
 
